@@ -412,6 +412,7 @@ def execute(spec):
                 ideal_A = PhonopyAtoms(symbols=sup["symbols"], cell=sup["lattice"] * L, scaled_positions=sup["positions"])
                 outputs = []
                 any_reordered = False
+                pos_err_rel = 0.0
                 cwd = os.getcwd()
                 os.chdir(path)
                 try:
@@ -436,6 +437,14 @@ def execute(spec):
                             break
                         if how != "same order":
                             any_reordered = True
+                        # precision the format itself carries: position error of the read-back file relative to the displacement
+                        intended = np.array(p1["displaced"][i]["positions"])[order]
+                        dd_ = np.array(rc.scaled_positions) - intended
+                        dd_ -= np.rint(dd_)
+                        u_ = np.array(p1["displaced"][i]["positions"]) - np.array(sup["positions"])
+                        u_ -= np.rint(u_)
+                        amp = float(np.max(np.linalg.norm(u_ @ np.array(sup["lattice"]), axis=1))) or 1.0
+                        pos_err_rel = max(pos_err_rel, float(np.max(np.linalg.norm(dd_ @ np.array(sup["lattice"]), axis=1))) / amp)
                         steps["peer_jobs"] += 1
                         if calc in peers.PEER_CALCULATORS:
                             F, perm = peers.harmonic_forces_for_file(rc, ideal_A, p1["fc_model"], L)
@@ -567,10 +576,15 @@ def execute(spec):
                             os.chdir(path)
                             refp = reference_frequencies(w, p1["unitcell"], p1["primitive_matrix"], p1["fc_model"], p1["born"], calc)
                             d, sc = cmp_freq(p3["freq"], refp)
+                            # the forces answer the positions the written file carries; every format is expected to carry the
+                            # displacement well enough for 2e-5 (pos_err_rel is reported for diagnosis, it does not widen the bound)
                             if d > 2e-5 * sc:
                                 V("units-inconsistent", "%s:protocol:%s" % (calc, "with-BORN" if p1["born"] is not None else "no-NAC"), maxdiff_eig=d, scale=sc,
+                                  position_error_of_written_file_relative_to_displacement=pos_err_rel,
                                   freq=p3["freq"][3].tolist(), ref=refp[3].tolist(), nac_factor=p3["nac_factor"])
                             probes["protocol_completed:%s" % calc] = 1
+                            if pos_err_rel > 1e-5:
+                                probes["written_file_carries_displacement_to_worse_than_1e-5:%s" % calc] = 1
                 finally:
                     os.chdir(cwd)
     sig = core.digest([calc, w.name, spec["world"]["supercell_matrix"], w.nac_method, sorted(set(fired)), spec["with_born"]])
